@@ -1,10 +1,10 @@
 /-
-  Proofs.SpecMsg: `decode` refines `Spec.decode`: same accept set, same value, same number of octets
+  Proofs.SpecMsg: `decode` refines `Spec.decodeM`: same accept set, same value, same number of octets
   consumed — for every byte string and every option set.
 -/
 import Rl2tp.Proofs.SpecAvps
 import Rl2tp.Proofs.Options
-import Rl2tp.Spec.Message
+import Rl2tp.Proofs.SpecM
 namespace Rl2tp
 open Spec
 
@@ -108,8 +108,8 @@ theorem readDataPayload_eq (w : UInt16) (h : DataHdr) (s : Bytes) (start : Nat) 
 
 /-- data messages: the three blocks refine the positional reading -/
 theorem decodeData_view (w : UInt16) (s : Bytes) :
-    viewR ((decodeData w : M Bytes DErr Msg) s) = afterSpec s (Spec.decodeData w s) := by
-  unfold Rl2tp.decodeData Spec.decodeData
+    viewR ((decodeData w : M Bytes DErr Msg) s) = afterSpec s (Spec.decodeDataM w s) := by
+  unfold Rl2tp.decodeData Spec.decodeDataM
   simp only [bind_apply, len_apply, len_bytes]
   by_cases hneed : s.length < dataNeed w
   · rw [readDataHeader_short w s hneed, if_pos hneed]; rfl
@@ -264,9 +264,9 @@ theorem afterSpec_shift (x y : UInt8) (t : Bytes) (v : Option (Msg × Nat)) :
   | some p => simp [afterSpec]
 
 theorem decodeControl_view (w : UInt16) (o : Opts) (s : Bytes) :
-    viewR ((decodeControl w o : M Bytes (List DErr) Msg) s) = afterSpec s (Spec.decodeControl w o s) := by
+    viewR ((decodeControl w o : M Bytes (List DErr) Msg) s) = afterSpec s (Spec.decodeControlM w o s) := by
   rw [decodeControl_eq]
-  unfold Spec.decodeControl
+  unfold Spec.decodeControlM
   by_cases hu : o.unused = true
   · by_cases hp : isPrioritized w = true
     · simp [hu, hp, viewR, afterSpec]
@@ -286,11 +286,11 @@ theorem decodeControl_view (w : UInt16) (o : Opts) (s : Bytes) :
     exact decodeControlCore_view w s
 
 /-- **The decoder accepts exactly the specified language with the specified values**: for every byte
-    string and every option set, `decode` returns a value iff `Spec.decode` does, the values are equal,
+    string and every option set, `decode` returns a value iff `Spec.decodeM` does, the values are equal,
     and the reader is left exactly after the octets the specification says were consumed. -/
 theorem decode_view (o : Opts) (b : Bytes) :
-    viewR ((decode o : M Bytes (List DErr) Msg) b) = afterSpec b (Spec.decode o b) := by
-  unfold Spec.decode
+    viewR ((decode o : M Bytes (List DErr) Msg) b) = afterSpec b (Spec.decodeM o b) := by
+  unfold Spec.decodeM
   by_cases hs : b.length < 2
   · rw [decode_short o hs, if_pos hs]; rfl
   obtain ⟨x, y, t, rfl⟩ := exists_cons2 (by omega : 2 ≤ b.length)
